@@ -149,7 +149,9 @@ def schema_text(h):
         out += type_xml(name, h['types'][name])
     if h['simple']:
         out += ('<xs:simpleType name="S0"><xs:restriction base="xs:int"><xs:minInclusive value="0"/></xs:restriction></xs:simpleType>'
-                '<xs:simpleType name="S1"><xs:restriction base="t:S0"><xs:maxInclusive value="9"/></xs:restriction></xs:simpleType>')
+                '<xs:simpleType name="S1"><xs:restriction base="t:S0"><xs:maxInclusive value="9"/></xs:restriction></xs:simpleType>'
+                '<xs:simpleType name="UID"><xs:union memberTypes="xs:integer xs:decimal"/></xs:simpleType>'
+                '<xs:simpleType name="UIB"><xs:union memberTypes="xs:integer xs:boolean"/></xs:simpleType>')
     kids = ''
     for e in h['elements']:
         bl = f' block="{e["block"]}"' if e['block'] is not None else ''
@@ -159,7 +161,9 @@ def schema_text(h):
     kids += f'<xs:element name="u"{ub} minOccurs="0" maxOccurs="unbounded"/>'
     if h['simple']:
         kids += ('<xs:element name="s" type="t:S0" minOccurs="0" maxOccurs="unbounded" nillable="true"/>'
-                 '<xs:element name="f" type="xs:decimal" fixed="1.0" minOccurs="0" maxOccurs="unbounded" nillable="true"/>')
+                 '<xs:element name="f" type="xs:decimal" fixed="1.0" minOccurs="0" maxOccurs="unbounded" nillable="true"/>'
+                 '<xs:element name="fu" type="t:UID" fixed="1" minOccurs="0" maxOccurs="unbounded"/>'
+                 '<xs:element name="fb" type="t:UIB" fixed="true" minOccurs="0" maxOccurs="unbounded"/>')
     if h['subst']:
         kids += '<xs:element ref="t:head" minOccurs="0" maxOccurs="unbounded"/>'
     out += f'<xs:element name="root"><xs:complexType><xs:sequence>{kids}</xs:sequence></xs:complexType></xs:element>'
@@ -292,6 +296,11 @@ def variants_for(h, rng, tier):
         for text, ok in (('1.0', True), ('1', True), ('1.00', True), ('+1.0', True), ('1.01', False), ('', True if False else False)):
             yield f'<t:f>{text}</t:f>', ok if text else True, {'fixed'}   # empty element takes the fixed value
         yield '<t:f xsi:nil="true"/>', False, {'fixed', 'nil'}       # nil with a fixed value is not allowed
+        # fixed values of unions compare in value space: integer 1 = decimal 1.0 (one primitive type), integer 1 != boolean true
+        for text, ok in (('1', True), ('1.0', True), ('01', True), ('1.00', True), ('2', False), ('1.5', False)):
+            yield f'<t:fu>{text}</t:fu>', ok, {'fixed', 'fixed-union'}
+        for text, ok in (('true', True), ('1', False), ('0', False), ('false', False)):
+            yield f'<t:fb>{text}</t:fb>', ok, {'fixed', 'fixed-union'}
     s = h['subst']
     if s:
         ht = s['head_type']
